@@ -113,9 +113,9 @@ def c05_process_block(report, cfg):
             e_x = S.ubi_block(tf, x, e_t0, t1, blk)
             e_t1 = bv.and_(t1, bv.const(~S.T1_FIRST, 64))
             if tt.f[0] != e_t0 or tt.f[1] != e_t1:
-                report.violated("R5.1", ikey, "%s::process_block: tweak update is not (t0 + n, t1 & !FIRST)" % name)
+                report.violated("R5.1", ikey, "%s::process_block: tweak update is not (t0 + n, t1 & !FIRST)" % name, graphs=(tt.f[0] + tt.f[1], e_t0 + e_t1))
             elif it.to_bits(xx, xxt) != e_x:
-                report.violated("R5.1", ikey, "%s::process_block: chaining value is not Threefish(x, (t0+n, t1), block) xor block" % name)
+                report.violated("R5.1", ikey, "%s::process_block: chaining value is not Threefish(x, (t0+n, t1), block) xor block" % name, graphs=(it.to_bits(xx, xxt), e_x))
             else:
                 report.ok("R5.1", ikey, sample={"fn": "%s::process_block" % name, "threefish": "uninterpreted (decided under C09)"})
         engine_guard(go, report, "R5.1", ikey)
@@ -141,7 +141,8 @@ def c05_default(report, cfg):
             tf = ufn_tf(ks_size(it, nb))
             exp = S.initial_state(tf, nb, n)
             if it.to_bits(xx, xxt) != exp:
-                report.violated("R5.2", ikey, "%s<%d>: initial chaining value is not UBI(0, config block {SHA3 v1, %d output bits}, type CFG first+final, position 32)" % (name, n, 8 * n))
+                report.violated("R5.2", ikey, "%s<%d>: initial chaining value is not UBI(0, config block {SHA3 v1, %d output bits}, type CFG first+final, position 32)" % (name, n, 8 * n),
+                                graphs=(it.to_bits(xx, xxt), exp))
             elif bv.const_value(tt.f[0]) != 0 or bv.const_value(tt.f[1]) != (S.T1_FIRST | S.TYPE_MSG) or bv.const_value(pos) != 0:
                 report.violated("R5.2", ikey, "%s<%d>::default: message tweak is not (0, FIRST|MSG) or the buffer is not empty" % (name, n))
             else:
@@ -255,9 +256,10 @@ def c05_update(report, cfg):
                     if bv.const_value(pos2) != tot - off:
                         report.violated("R5.3", ikey, "%s::update: %d bytes stay buffered, expected %d (the last full block must be held back)" % (name, bv.const_value(pos2) or -1, tot - off))
                     elif it.to_bits(bytes2, gt)[:len(rest)] != rest:
-                        report.violated("R5.3", ikey, "%s::update: buffered bytes are not the tail of the input stream" % name)
+                        report.violated("R5.3", ikey, "%s::update: buffered bytes are not the tail of the input stream" % name, graphs=(it.to_bits(bytes2, gt)[:len(rest)], rest))
                     elif it.to_bits(xx, xxt) != ex or tt.f[0] != et0 or tt.f[1] != et1:
-                        report.violated("R5.3", ikey, "%s::update: chaining value / tweak after the call differ from UBI over the complete blocks" % name)
+                        report.violated("R5.3", ikey, "%s::update: chaining value / tweak after the call differ from UBI over the complete blocks" % name,
+                                        graphs=(it.to_bits(xx, xxt) + tt.f[0] + tt.f[1], ex + et0 + et1))
                     else:
                         report.ok("R5.3", ikey, sample={"hasher": name, "pos": p, "len": ln} if (p, ln) == (1, 2 * nb) else None)
                 engine_guard(go, report, "R5.3", ikey)
